@@ -38,7 +38,7 @@ Hypothesis P_put : forall c t it cond names vals, P t -> P (fst (t_put lang_matc
 Hypothesis P_update : forall c t k e cond names vals, P t -> U c t k e names vals -> P (fst (t_update lang_match lang_update c t k e cond names vals)).
 Hypothesis P_delete : forall c t k cond names vals, P t -> P (fst (t_delete lang_match c t k cond names vals)).
 Hypothesis P_clear : forall t, P t -> P (t_clear t).
-Hypothesis P_empty : forall n ks defs, P {| t_name := n; t_ks := ks; t_defs := defs; t_sorted := []; t_data := []; t_indexes := [] |}.
+Hypothesis P_empty : forall n h r defs, P {| t_name := n; t_ks := {| hashk := h; rangek := r; secondary := false |}; t_defs := defs; t_sorted := []; t_data := []; t_indexes := [] |}.
 Hypothesis P_agi : forall t ppr d t', P t -> add_global_index t ppr d = Some t' -> P t'.
 Hypothesis P_ali : forall t d t', P t -> t_data t = [] -> add_local_index t d = Some t' -> P t'.
 Hypothesis P_defs : forall t defs, P t -> E t defs ->
@@ -344,7 +344,7 @@ Proof.
   - intros c0 t0 k e cond names vals H _. now apply TInv_update.
   - apply TInv_delete.
   - intros t0 _. apply TInv_clear.
-  - intros n ks defs. split; cbn; [apply wf_nil|reflexivity].
+  - intros n h r defs. split; cbn; [apply wf_nil|reflexivity].
   - intros t0 ppr d t' H Ea. destruct (add_global_index_data _ _ _ _ Ea) as [D _].
     unfold add_global_index in Ea. destruct (negb ppr && negb (id_throughput d)); [discriminate|].
     destruct (check_schema _ _ _) as [[h r]|]; [|discriminate]. inversion Ea; subst. exact H.
